@@ -204,6 +204,26 @@ def layer_S(tier, pfx="s"):
         seqs += [[s] for s in compound(2, False)]
         seqs += [[s1, s2, s3] for s1 in b0 for s2 in l1[::5] for s3 in b0[::2]]
         argsets = [2, 5, -3]
+    # nested loops: outer {while, for, if-block} x inner {while, for} x inner exits {break, continue, conditional
+    # break / continue, early return}; statements after the inner loop show whether the exit stayed local to it
+    def inner_loops():
+        exits = [[("break",)], [("continue",)], [("if", BIN("==", V("k2"), N(1)), [("break",)], [("println", V("k2"))])],
+                 [("if", BIN("==", V("k2"), N(1)), [("continue",)], [("println", V("k2"))])],
+                 [("println", V("k2")), ("if", BIN(">", V("k2"), N(0)), [("break",)], None)],
+                 [("if", BIN("==", V("k2"), N(2)), [("return", BIN("+", V("x"), N(500)))], [("set", "x", BIN("+", V("x"), N(1)))])]]
+        for ex in exits:
+            yield ("for", "k2", N(0), N(3), ex)
+            yield ("while", BIN("<", V("j"), N(3)), [("let", "k2", I, V("j"), False), ("set", "j", BIN("+", V("j"), N(1)))] + ex, "needs_j")
+    for il in inner_loops():
+        uses_j = (il[0] == "while")
+        pre = [("set", "j", N(0))] if uses_j else []
+        after = [("println", BIN("+", V("x"), N(1000))), ("set", "x", BIN("+", V("x"), N(1)))]
+        inner = ("while", il[1], il[2]) if uses_j else il
+        outers = [("for", "k", N(0), N(2), pre + [inner] + after),
+                  ("while", BIN("<", V("i"), N(2)), [("set", "i", BIN("+", V("i"), N(1)))] + pre + [inner] + after, "needs_i"),
+                  ("if", BIN("<", V("x"), N(100)), pre + [inner] + after, [("println", N(0))])]
+        for o in outers:
+            seqs.append([("let", "j", I, N(0), True), o] if uses_j else [o])
     n = 0
     for seq in seqs:
         body = [("let", "x", I, V("a"), True), ("let", "y", I, N(1), True)]
